@@ -48,6 +48,17 @@ def clause_props(c, fn_props):
     return tuple(p) if p else tuple(fn_props)
 
 
+def effective_props(ef):
+    """the properties a function is checked for: its own list and the tag of every clause in it (an unnamed obligation of the function
+    -- a proof-hint assertion, overflow, a callee's precondition -- belongs to all of them)"""
+    out = list(ef.props)
+    for c in ef.clauses:
+        for q in (getattr(c, 'props', None) or ()):
+            if q not in out:
+                out.append(q)
+    return tuple(out)
+
+
 def run_units(unit_names, seed=None, canaries=True):
     """run every unit (+ canary variants) in parallel -> dict name -> (UnitResult main, [canary results])"""
     jobs = {}
@@ -175,7 +186,8 @@ def decide(prop, tier, seed):
                 if prop in ef.props or not ef.props:
                     pass
                 continue
-            if prop not in ef.props:
+            eprops = effective_props(ef)
+            if prop not in eprops:
                 continue
             # explicit clauses relevant to this property + one implicit safety obligation
             cls = [c for c in ef.clauses if c.kind != 'canary' and prop in clause_props(c, ef.props)]
@@ -184,8 +196,11 @@ def decide(prop, tier, seed):
             if spec.get('safety_only'):
                 # totality: only the implicit safety obligations of the function (overflow, division, bounds, unwrap, unreachable,
                 # callee preconditions at its call sites) belong to this property, not its functional clauses
-                cls = []
-                fl = [f for f in fl if f.clause is None or f.kind.startswith('requires@')]
+                # ... plus the few named clauses that ARE the totality mechanisms (the call-depth guard and its inheritance): they are
+                # listed by name in the registry, so that a functional clause of the same function never alarms under this property
+                mech = set(spec.get('mechanism_clauses', ()))
+                cls = [c for c in ef.clauses if c.kind != 'canary' and c.name in mech]
+                fl = [f for f in fail_by_fn.get(ef.qual, []) if f.clause is None or f.kind.startswith('requires@') or f.clause.name in mech]
             n = len(cls) + 1
             # also failures reported in this fn but attributed to a callee's requires clause
             failed_ids = sorted(set(f.oid for f in fl))
